@@ -195,11 +195,16 @@ def run_cc(prop, tier):
         extra_cov = {"c01_alarms_refuted_by_checked_proof": refuted}
     if prop == "C08":
         import rw
-        bad8, panics8, st8, summ8, lines8 = rw.rw_trace(tier, "C08", 3)
-        for f in panics8:
-            f.setdefault("universe", "rewriting(A)")
-        mine += panics8
-        extra_cov = {"rewriting_runs_without_panic": {"recorder": summ8}}
+        rsum = []
+        for v8 in ["default", "checks"]:
+            bad8, panics8, st8, summ8, lines8 = rw.rw_trace(tier, "C08", 3, variant=v8)
+            for f in panics8:
+                f.setdefault("universe", "rewriting(A)")
+                f["variant"] = v8
+            mine += panics8
+            summ8["variant"] = v8
+            rsum.append(summ8)
+        extra_cov = {"rewriting_runs_without_panic": {"recorder": rsum}}
     if prop == "C14":
         import rw
         f2, st2, summ2, ndumps = rw.c14_constfold(tier)
